@@ -35,7 +35,8 @@ func (a Addr) Network() string {
 }
 
 func (a Addr) String() string {
-	return fmt.Sprintf("%s:%d", a.IP.String(), a.Port)
+	// AddrPort brackets IPv6 addresses, which is what UnmarshalText expects.
+	return netip.AddrPortFrom(a.IP, a.Port).String()
 }
 
 func (a *Addr) UnmarshalText(x []byte) error {
